@@ -203,6 +203,7 @@ def ob_wnaf_table_multiply(bits, field):
     fname = P.find1(r"void " + B + r"wnaf_table_multiply<" + B + r"Projective<" + B + field + r">, %d, 4u>\(.*\)" % bits)
     fn = P.fn[fname]
     I = eir.Interp(P)
+    I.external_globals_symbolic = True      # field-level code inlined into the loop is followed to its stores (the table is a read-only input)
     log = []
     install_group(I, log)
     gsz = fn.params[0].attrs["dereferenceable"]
